@@ -205,6 +205,9 @@ impl Profile {
                 p.entry_remove = 8;
                 p.clear = 3;
                 p.clone_from = 4;
+                // only the p-registries compile parallel queries; there they run under the same
+                // allocator and crash oracles as everything else
+                p.par_query = 8;
             }
             "C06" => {
                 p.round_trip = 10;
